@@ -425,3 +425,133 @@ func vwireFacts(fam *vfamily, cfg vcfg, ver int16, root reflect.Value, b []byte,
 	}
 	return ""
 }
+
+// ---- O4(d): length prefixes of strings, byte arrays and arrays outside record sets ----
+//
+// For a base/deviation pair that differs in the size of one string / byte array / collection, the first
+// byte at which the two encodings differ must belong to that field's length prefix, and the prefix must
+// be the one the protocol prescribes for the version: unsigned varint of n+1 (0 = null) in flexible
+// versions; big-endian int16 (strings), int32 (bytes, arrays; -1 = null) otherwise.
+
+func vuvarint(n uint64) []byte {
+	var out []byte
+	for n >= 0x80 {
+		out = append(out, byte(n)|0x80)
+		n >>= 7
+	}
+	return append(out, byte(n))
+}
+
+// vlenPrefixes: acceptable encodings of length n (-1 = null) for a slot kind
+func vlenPrefixes(kind string, n int, compact bool) [][]byte {
+	if compact {
+		if n < 0 || (n == 0 && kind != "string" && kind != "nstring" && kind != "bytes") {
+			return [][]byte{{0}, {1}} // arrays: sarama writes "null" for some empty nullable arrays and "empty" for some nil ones
+		}
+		return [][]byte{vuvarint(uint64(n + 1))}
+	}
+	be := func(width int, v int) []byte {
+		b := make([]byte, width)
+		for i := 0; i < width; i++ {
+			b[width-1-i] = byte(uint32(int32(v)) >> (8 * uint(i)))
+		}
+		return b
+	}
+	switch kind {
+	case "string", "nstring":
+		return [][]byte{be(2, n)}
+	case "bytes":
+		return [][]byte{be(4, n)}
+	default: // arrays: a nil collection may travel as null or as empty, an empty nullable one as null (e.g. "all topics")
+		if n <= 0 {
+			return [][]byte{be(4, -1), be(4, 0)}
+		}
+		return [][]byte{be(4, n)}
+	}
+}
+
+func vslotLen(v reflect.Value) (n int, content []byte) {
+	for v.Kind() == reflect.Ptr {
+		if v.IsNil() {
+			return -1, nil
+		}
+		v = v.Elem()
+	}
+	switch v.Kind() {
+	case reflect.String:
+		return v.Len(), []byte(v.String())
+	case reflect.Slice:
+		if v.IsNil() {
+			return -1, nil
+		}
+		if v.Type() == vtBytes {
+			return v.Len(), v.Bytes()
+		}
+		return v.Len(), nil
+	case reflect.Map:
+		if v.IsNil() {
+			return -1, nil
+		}
+		return v.Len(), nil
+	}
+	return -2, nil
+}
+
+// vo4d returns "" if the fact holds or is not applicable; counts applicable facts.
+func vo4d(fam *vfamily, ver int16, parent, child *vrun, s *vslot, a valt, facts *int) string {
+	switch s.kind {
+	case "string", "nstring", "bytes", "slice", "map":
+	default:
+		return ""
+	}
+	if s.inRecords || s.derived || s.owner == "FetchResponseBlock.RecordsSet" || (fam.Kind != "request" && fam.Kind != "response" && fam.Kind != "member") {
+		return ""
+	}
+	pb, cb := parent.b0[fam.headerLen(ver):], child.b0[fam.headerLen(ver):]
+	if bytes.Equal(pb, cb) {
+		return ""
+	}
+	np, _ := vslotLen(parent.slots[vslotIndex(parent.slots, s.path)].v)
+	nc, content := vslotLen(a.val)
+	if np == -2 || nc == -2 || np == nc {
+		return ""
+	}
+	p := 0
+	for p < len(pb) && p < len(cb) && pb[p] == cb[p] {
+		p++
+	}
+	compact := fam.flexible(ver)
+	*facts++
+	for st := p; st >= 0 && st >= p-3; st-- {
+		for _, pp := range vlenPrefixes(s.kind, np, compact) {
+			if !bytes.HasPrefix(pb[st:], pp) {
+				continue
+			}
+			for _, cp := range vlenPrefixes(s.kind, nc, compact) {
+				// the differing byte must lie inside the prefix of at least one of the two encodings
+				if bytes.HasPrefix(cb[st:], cp) && bytes.HasPrefix(cb[st+len(cp):], content) && (st+len(cp) > p || st+len(pp) > p) {
+					return ""
+				}
+			}
+		}
+	}
+	mode := "int16/int32 big-endian length"
+	if compact {
+		mode = "compact (unsigned varint of n+1)"
+	}
+	lo := p - 4
+	if lo < 0 {
+		lo = 0
+	}
+	return fmt.Sprintf("slot %s: size %d -> %d; the encodings first differ at body offset %d, but no %s prefix for these sizes covers that byte\nbase  …%x\nchild …%x",
+		s.path, np, nc, p, mode, pb[lo:vmin(len(pb), p+8)], cb[lo:vmin(len(cb), p+8)])
+}
+
+func vslotIndex(slots []*vslot, path string) int {
+	for i, s := range slots {
+		if s.path == path {
+			return i
+		}
+	}
+	return 0
+}
